@@ -209,9 +209,37 @@ def corpus_files() -> list[str]:
     return out
 
 
+def fam_def(n: int, i: int):
+    """Definition S; <gate tree i over n events as directly nested forks>; M
+    (the learner-level view of one C06 reference tree: every outcome set of
+    the tree is one job S -> set -> M)."""
+    from . import gate_sem
+
+    t = gate_sem.all_trees(n, 3)[i]
+
+    def conv(t):
+        if t[0] == "ev":
+            return [["ev", t[1]]]
+        return [[t[0].lower(), [conv(c) for c in t[1]]]]
+
+    return [["ev", "S"]] + conv(t) + [["ev", "M"]]
+
+
+def split_wid(wid: str):
+    """'base#s<k>' -> (base, k) ; 'base' -> (base, None).  A '#s<k>' suffix
+    denotes the k-th fixed sub-sample of the executions of base."""
+    base, sep, k = wid.partition("#s")
+    return base, (int(k) if sep else None)
+
+
 def load_workload(wid: str):
-    """wid = 'gen:<i>' | 'corpus:<relpath>'.  Returns the AST."""
+    """wid = 'gen:<i>' | 'corpus:<relpath>' | 'fam:<n>:<i>', optionally
+    followed by '#s<k>'.  Returns the AST of the base definition."""
+    wid = split_wid(wid)[0]
     kind, _, rest = wid.partition(":")
+    if kind == "fam":
+        n, i = rest.split(":")
+        return fam_def(int(n), int(i))
     if kind == "gen":
         return gen_def(int(rest))
     if kind == "corpus":
